@@ -373,6 +373,11 @@ def check_parent(seed, shard, max_positions=None):
         a, b = rng.sample(sorted(FAULTS), 2)
         if "undefined-poi" in (a, b):
             continue
+        length_faults = {"sample-data-length", "histosys-data-length", "shapesys-data-length", "staterror-data-length"}
+        if a in length_faults and b in length_faults:
+            # two length faults can neutralise each other (a lone sample shortened together with its own modifier data
+            # is a consistent, narrower channel): only the dedicated compensating class composes length faults
+            continue
         ia = inject(a, spec, rng, npar)
         if not ia:
             continue
